@@ -551,6 +551,34 @@ def charset(f, facts=None):
             if a[0] == "call" and a[1].endswith("<impl char>::to_uppercase") and a[2] == (CPARAM,) and b[0] == "agg" and b[1][0] == "array" and b[2] == (CPARAM,):
                 fixed = bits_cached("upper_fixed", lambda c: chr(c).upper() == chr(c))
                 return fixed if name.endswith("::eq") else universe() & ~fixed
+        # positional reads of a case mapping (core.Body.cursor_positions):  it.next() at position k of c.to_lowercase()
+        def mapped_read(t):
+            t = strip(t)
+            if t[0] == "call" and t[1].endswith("::next") and len(t[2]) == 1 and t[2][0][0] == "nth":
+                src = strip(t[2][0][1])
+                if src[0] == "call" and len(src[2]) == 1 and strip(src[2][0]) == CPARAM:
+                    if src[1].endswith("<impl char>::to_lowercase"):
+                        return ("lower", t[2][0][2])
+                    if src[1].endswith("<impl char>::to_uppercase"):
+                        return ("upper", t[2][0][2])
+            return None
+
+        def mapping(kind):
+            return (lambda c: chr(c).lower()) if kind == "lower" else (lambda c: chr(c).upper())
+        if name in ("std::option::Option::<T>::is_some", "std::option::Option::<T>::is_none") and len(args) == 1 and mapped_read(args[0]):
+            kind, pos = mapped_read(args[0])
+            m = mapping(kind)
+            some = bits_cached("%s_len_gt_%d" % (kind, pos), lambda c: len(m(c)) > pos)
+            return some if name.endswith("is_some") else universe() & ~some
+        if name in ("std::cmp::PartialEq::eq", "std::cmp::PartialEq::ne") and len(args) == 2:
+            for x, y in ((args[0], args[1]), (args[1], args[0])):
+                r = mapped_read(x)
+                y = strip(y)
+                if r and y[0] == "agg" and y[1][0] == "adt" and y[1][1:3] == ("std::option::Option", "Some") and strip(y[2][0]) == CPARAM:
+                    kind, pos = r
+                    m = mapping(kind)
+                    same = bits_cached("%s_at_%d_is_self" % (kind, pos), lambda c: len(m(c)) > pos and m(c)[pos] == chr(c))
+                    return same if name.endswith("::eq") else universe() & ~same
         if name == "atom":
             at = args[0]
             # match on the char itself:  ("val", cparam, outcome)
